@@ -84,3 +84,8 @@ Proof. refute_real ns_exit_local. Qed.
 Lemma no_exit_namesake_satisfiable :
   wf ns_filepath_alias = true /\ forallb g_no_namesake_exit (all_nodes ns_filepath_alias) = true.
 Proof. split; vm_compute; reflexivity. Qed.
+
+(* the hypothesis of C01_unlambda_total_partial holds on a converted real file *)
+Lemma unlambda_hypothesis_satisfiable :
+  wf w_bare_return = true /\ forallb g_unlambda_arity (all_nodes w_bare_return) = true.
+Proof. split; vm_compute; reflexivity. Qed.
